@@ -144,6 +144,10 @@ pub fn run_family(ctx: &Ctx, name: &str, bound: &str, shards: usize, total: &Mut
     s
 }
 
+fn crosscheck(ctx: &Ctx, on: bool) {
+    ctx.fen_crosscheck.store(on, std::sync::atomic::Ordering::Relaxed);
+}
+
 pub struct SweepPlan {
     pub reach_depth_small: usize,
     pub reach_depth_big: usize,
@@ -205,6 +209,7 @@ pub fn run_plan(ctx: &Ctx, plan: &SweepPlan) -> (u64, u64) {
         states += x.0;
         transitions += x.1;
     };
+    crosscheck(ctx, true);
     // F-REACH
     let seeds = families::seeds();
     let (mut rs, mut rt) = (0u64, 0u64);
@@ -224,6 +229,7 @@ pub fn run_plan(ctx: &Ctx, plan: &SweepPlan) -> (u64, u64) {
     if plan.rights {
         add(run_family(ctx, "F-RIGHTS", "4 home placements x 16 right subsets x 2 sides", 1, &total, &|_, cb| enumerate_rights(cb)));
     }
+    crosscheck(ctx, false); // the two large families below are visited through the constructor only
     if !plan.mat1.is_empty() {
         let sigs = plan.mat1.clone();
         add(run_family(ctx, "F-MAT(kings+1)", &format!("{} of 10 signatures, all squares, both sides, all consistent rights/ep", sigs.len()), sigs.len() * 64, &total, &|i, cb| {
@@ -248,6 +254,7 @@ pub fn run_plan(ctx: &Ctx, plan: &SweepPlan) -> (u64, u64) {
             &|i, cb| families::enumerate_ep((i % 8) as i32, extras[i / 8], restrict, cb),
         ));
     }
+    crosscheck(ctx, true);
     if !plan.castle_enemy.is_empty() {
         let mut items: Vec<(u8, Vec<Kind>, Option<Kind>)> = vec![];
         for rooks in [1u8, 2, 3] {
